@@ -1,10 +1,188 @@
-//! C13 — not built yet.
-use crate::ev::Ctx;
-pub fn run(_ctx: &Ctx) -> i32 {
-    println!("INCONCLUSIVE property=C13 check not built yet");
-    2
+//! C13 — CLI exit status and stream discipline.
+//!
+//! The release `xt` binary built from the working tree is run with every
+//! argument vector up to a length bound over a vocabulary of option forms,
+//! help/version requests, separators and path kinds, with several stdin
+//! contents and stdout kinds (pipe, file, pseudo-terminal). The observed wait
+//! status, stdout and stderr are judged by the CLI reference model.
+
+use std::cell::RefCell;
+use std::collections::BTreeMap;
+
+use serde_json::{json, Value};
+
+use crate::climodel::{self, CliClass, PathKind};
+use crate::ev::{self, Acc, Ctx, Finish, Violation};
+use crate::model::{hex, preview, unhex};
+use crate::procmon::{self, Run, Scratch, StdinKind, StdoutKind};
+use crate::rng::Rng;
+
+pub const VOCAB: &[&str] = &[
+    "-f", "-t", "-fj", "-fjson", "-f=yaml", "-fy", "-ft", "-fm", "-ty", "-tj", "-tm", "-tt", "-tmsgpack", "-ttoml", "-t=y", "-tx", "-f=", "-fJSON", "j", "json", "yaml", "m", "bogus", "-h", "--help", "-V", "--version", "--help=x", "--version=1", "-hV", "-Vh", "-tV", "-hx", "--", "-", "-x", "--bogus", "--from", "-F", "good.json", "good.yaml", "good", "bad.json", "undet", "nullval.json", "missing.json", "dir", "",
+];
+
+pub fn files() -> BTreeMap<String, PathKind> {
+    let mut m = BTreeMap::new();
+    m.insert("good.json".into(), PathKind::Regular(b"{\"a\": [1, 2.5, \"x\"]}\n{\"b\": true}\n".to_vec()));
+    m.insert("good.yaml".into(), PathKind::Regular(b"k: v\nlist:\n  - 1\n  - two\n".to_vec()));
+    m.insert("good".into(), PathKind::Regular(b"[table]\nkey = \"value\"\nn = 3\n".to_vec()));
+    m.insert("bad.json".into(), PathKind::Regular(b"{\"a\": [1, 2,, }\n".to_vec()));
+    m.insert("undet".into(), PathKind::Regular(b"\x01\x02 this is no format {{{\n".to_vec()));
+    m.insert("nullval.json".into(), PathKind::Regular(b"{\"a\": null}\n".to_vec()));
+    m.insert("missing.json".into(), PathKind::Missing);
+    m.insert("dir".into(), PathKind::Directory);
+    // words of the vocabulary that end up as path operands name nothing
+    for w in ["j", "json", "yaml", "m", "bogus", ""] {
+        m.insert(w.into(), PathKind::Missing);
+    }
+    m
 }
-pub fn replay(_case: &serde_json::Value) -> i32 {
-    println!("replay not built yet");
-    2
+
+pub const STDINS: &[&[u8]] = &[b"{\"stdin\": 1}\n", b"{\"stdin\": [}", b""];
+
+thread_local! {
+    static SCRATCH: RefCell<Option<Scratch>> = RefCell::new(None);
+}
+
+fn with_scratch<T>(f: impl FnOnce(&Scratch) -> T) -> T {
+    SCRATCH.with(|s| {
+        let mut s = s.borrow_mut();
+        if s.is_none() {
+            let sc = Scratch::new();
+            for (name, kind) in files() {
+                match kind {
+                    PathKind::Regular(b) => {
+                        sc.file(&name, &b);
+                    }
+                    PathKind::Directory => {
+                        let _ = std::fs::create_dir_all(sc.path().join(&name));
+                    }
+                    _ => {}
+                }
+            }
+            *s = Some(sc);
+        }
+        f(s.as_ref().unwrap())
+    })
+}
+
+pub fn judge(argv: &[String], stdin: &[u8], stdout: &StdoutKind, acc: &mut Acc) {
+    acc.evals += 1;
+    let class = climodel::classify(argv);
+    let out = with_scratch(|sc| procmon::run(Run { bin: &procmon::release_bin(), argv: argv.to_vec(), cwd: sc.path(), stdin: StdinKind::Bytes(stdin.to_vec()), stdout: stdout.clone(), wall_secs: 60, cpu_secs: 20 }));
+    if matches!(out.status, procmon::Status::Timeout | procmon::Status::SpawnError(_)) {
+        acc.inconclusive += 1;
+        acc.count("process_inconclusive");
+        return;
+    }
+    let verdict = match &class {
+        CliClass::Usage(_) => {
+            acc.count("class_usage");
+            climodel::judge_usage(&out)
+        }
+        CliClass::Help(k) => {
+            acc.count("class_help");
+            climodel::judge_help(&out, k)
+        }
+        CliClass::Run { from, to, paths } => {
+            acc.count("class_run");
+            let exp = climodel::emulate(*from, *to, paths, &files(), stdin, stdout);
+            acc.count(&format!("run_expected_exit_{}", exp.exit));
+            if *stdout == StdoutKind::Pty && *to == crate::fmts::Fmt::Msgpack {
+                acc.count("msgpack_to_terminal_cases");
+            }
+            climodel::judge_run(&out, &exp).map_err(|e| format!("{e} [{}]", exp.why))
+        }
+    };
+    acc.count(&format!("stdout_{}", match stdout { StdoutKind::Pipe => "pipe", StdoutKind::File => "file", StdoutKind::Pty => "pty", _ => "other" }));
+    if let Err(e) = verdict {
+        let sig_class = match &class {
+            CliClass::Usage(w) => format!("usage({w})"),
+            CliClass::Help(k) => format!("help({k:?})"),
+            CliClass::Run { .. } => "run".into(),
+        };
+        acc.violation(Violation {
+            sig: format!("{}: {}", sig_class, ev::truncate(&crate::c02_mask(&e), 80)),
+            case: json!({"argv": argv, "stdin_hex": hex(stdin), "stdout": format!("{stdout:?}")}),
+            observed: format!("{e}; status {}, stdout [{}], stderr [{}]", out.status.show(), preview(&out.stdout, 100), preview(&out.stderr, 160)),
+            expected: format!("model class {:?}", class),
+        });
+    }
+}
+
+fn stdout_kind(i: usize) -> StdoutKind {
+    match i % 4 {
+        0 | 1 => StdoutKind::Pipe,
+        2 => StdoutKind::File,
+        _ => StdoutKind::Pty,
+    }
+}
+
+pub fn run(ctx: &Ctx) -> i32 {
+    let v = VOCAB.len();
+    let exhaustive_len = if ctx.thorough() { 3 } else { 2 };
+    let mut total = 0usize;
+    let mut ranges = vec![];
+    for len in 0..=exhaustive_len {
+        let c = v.pow(len as u32);
+        ranges.push((len, total, c));
+        total += c;
+    }
+    let n_random = ctx.size(5000, 60000);
+    let seed = ctx.seed;
+    let acc = crate::par::run(total + n_random, 16, |i, acc| {
+        let mut rng = Rng::derive(seed, 0xc13, i as u64);
+        let argv: Vec<String> = if i < total {
+            let (len, start, _) = *ranges.iter().find(|(_, s, c)| i >= *s && i < s + c).unwrap();
+            let mut x = i - start;
+            let mut a = vec![];
+            for _ in 0..len {
+                a.push(VOCAB[x % v].to_string());
+                x /= v;
+            }
+            acc.count(&format!("argv_exhaustive_len{len}"));
+            a
+        } else {
+            let len = rng.range(3, 6);
+            acc.count("argv_random_longer");
+            (0..len).map(|_| rng.pick(VOCAB).to_string()).collect()
+        };
+        acc.distinct(&argv);
+        acc.sample_every(1499, || json!({"argv": argv}));
+        // every argv with a pipe; a rotating second stdout kind and stdin content
+        let stdin = STDINS[i % 3];
+        judge(&argv, stdin, &StdoutKind::Pipe, acc);
+        let k2 = stdout_kind(i + 2);
+        if k2 != StdoutKind::Pipe {
+            judge(&argv, STDINS[(i / 3) % 3], &k2, acc);
+        }
+    });
+    let rule = format!("EVERY argument vector of length 0..={} over a {}-token vocabulary (-f/-t with every name and alias in attached, detached and '=' forms, repeated, missing value, invalid name; unknown short/long options; -h --help -V --version and clustered/valued forms; '--'; '-'; translatable / malformed / undetectable / unrepresentable / missing / directory / empty paths) plus {} random vectors of length 3-6; each run with a pipe and (rotating) a file or pseudo-terminal as stdout, stdin content rotating over translatable / malformed / empty; distinct non-trivial = distinct argument vectors", exhaustive_len, v, n_random);
+    let mut extra = serde_json::Map::new();
+    extra.insert("argv_exhaustive_up_to_length".into(), json!(exhaustive_len));
+    ev::finish(
+        Finish { ctx, level: "exploration", rule, assumptions: vec!["the harness runs as root, so an unreadable-file case cannot be produced (permission bits are ignored); missing files and directories stand in for open failures".into(), "argv is tokenised by the lexopt crate, the manual's rules are applied by the harness".into()], extra, exhaustive: false, min_distinct: 1000, must_reach: vec![("class_usage".into(), 500), ("class_help".into(), 200), ("class_run".into(), 500), ("run_expected_exit_0".into(), 100), ("run_expected_exit_1".into(), 100), ("msgpack_to_terminal_cases".into(), 10), ("stdout_pty".into(), 200)] },
+        acc,
+    )
+}
+
+pub fn replay(v: &Value) -> i32 {
+    let c = &v["case"];
+    let argv: Vec<String> = c["argv"].as_array().map(|a| a.iter().filter_map(|x| x.as_str().map(String::from)).collect()).unwrap_or_default();
+    let stdin = c["stdin_hex"].as_str().and_then(unhex).unwrap_or_default();
+    let stdout = match c["stdout"].as_str() {
+        Some("File") => StdoutKind::File,
+        Some("Pty") => StdoutKind::Pty,
+        _ => StdoutKind::Pipe,
+    };
+    let mut acc = Acc::default();
+    judge(&argv, &stdin, &stdout, &mut acc);
+    println!("argv {:?} stdout {:?} -> model class {:?}", argv, stdout, climodel::classify(&argv));
+    if acc.vio_count > 0 {
+        println!("VIOLATION property=C13 replay=<this file> (reproduced): {}", acc.violations[0].observed);
+        1
+    } else {
+        println!("not reproduced");
+        0
+    }
 }
